@@ -16,6 +16,8 @@ def run(model, rep, tier):
     r4_once_per_iteration(ctx, rep)
     r5_one_process_per_layer(ctx, rep)
     r6_child_arguments(ctx, rep)
+    from . import c11
+    c11.r3_feature_order(ctx, rep, R='C03.R7')
     rep.units['cfg'] = ctx.cfg_stats
 
 
